@@ -423,6 +423,23 @@ impl<'a, D: DependencyProvider> Encoder<'a, D> {
             self.state
                 .watches
                 .start_watching(watched_literals, clause_id);
+
+            // If the other candidate is already installed (a soft requirement
+            // that was accepted before its package was requested through a
+            // version set) the clause is violated and neither watch will ever
+            // fire. Treat it like an exclusion that is discovered late: report
+            // the conflict and keep asserting that the candidate is forbidden.
+            if self
+                .state
+                .decision_tracker
+                .assigned_value(other_candidate_var)
+                == Some(true)
+            {
+                self.state
+                    .negative_assertions
+                    .push((other_candidate_var, clause_id));
+                self.conflicting_clauses.push(clause_id);
+            }
         }
     }
 
